@@ -166,8 +166,7 @@ def inventory(game, cfg: Dict) -> List[str]:
             d = decl_rews[i] if i < len(decl_rews) else {}
             o = {k: getattr(comp.config, k, "<no-such-field>") for k in (d.get("options") or {})}
             out.append(f"rew {_name(ref)} {i} {_reward_type(comp)} {tok(weight)} {tok(o)}")
-        for k in (acfg.get("agent_settings") or {}):
-            out.append(f"aset {_name(ref)} {k} {tok(getattr(ag.config.agent_settings, k, '<no-such-field>'))}")
+        out.append(f"aset {_name(ref)} " + tok({k: getattr(ag.config.agent_settings, k, '<no-such-field>') for k in (acfg.get("agent_settings") or {})}))
     return sorted(out)
 
 
@@ -327,8 +326,7 @@ def scenario_lines(cfg: Dict) -> List[str]:
             lines.append(f"action {int(i)} {e['action']} {tok(e.get('options') or {})}")
         for r in (a.get("reward_function") or {}).get("reward_components") or []:
             lines.append(f"reward {r['type']} {tok(r.get('weight', 1.0))} {tok(r.get('options') or {})}")
-        for k, v in (a.get("agent_settings") or {}).items():
-            lines.append(f"setting {k} {tok(v)}")
+        lines.append(f"settings {tok(a.get('agent_settings') or {})}")
     return lines
 
 
